@@ -10,7 +10,30 @@ TRUST = ("Trusted: TLC; the replay driver and projection in harness/checks; Pyth
          "Exhaustive only within the stated bounds of the TLC instance; beyond them seeded generation.")
 
 # id -> (spec modules, technique, level text, design ref)
+MB = ('TLA+ spec ModelBuild.tla (declaration + main() pipeline of every sector kind, ledgers as bags of signed monomials) model-checked by TLC over the blueprint family and all declaration orders (identities evaluated in Z_10007); TLC-generated (blueprint, order) behaviours rebuilt with the real classes, solved exactly over Fractions and validated by TLC against ModelBuild_Trace.tla')
+
 CHECKS = {
+    'C01': (['ModelBuild', 'ModelBuild_Trace'], MB,
+            'TLC checks C01_SFC (zone sum of asset changes + FX position = 0 with lags taken from a consistent previous period) '
+            'in every final state of the bounded ModelBuild instance; sampled behaviours are rebuilt with the real classes and the '
+            'identity is evaluated exactly (Fractions) for every zone and period k>=2 (k>=1 without initial conditions); the '
+            'observed ledgers must equal the ledgers the spec predicts (drift otherwise).',
+            'DESIGN.md section 6 C01'),
+    'C04': (['ModelBuild', 'ModelBuild_Trace'], MB,
+            'TLC checks C04_MarketsClear / C04_DemandersBooked in every final state; on rebuilt models every goods, labour, money '
+            'and deposit market is checked exactly for every period: demand = sum of declared demanders, supply = demand, '
+            'allocations sum to supply, participants booked what the market assigns (cross rate for foreign suppliers), portfolios add up.',
+            'DESIGN.md section 6 C04'),
+    'C05': (['ModelBuild', 'ModelBuild_Trace'], MB,
+            'TLC checks C05_Closed on the abstract final state; on rebuilt models (programs embed names requested before full codes '
+            'exist in sector equations, supplier rules and global equations) the emitted text is checked for placeholders, duplicate '
+            'or non-canonical names, dangling references and meaning preservation against the sector-local equations.',
+            'DESIGN.md section 6 C05'),
+    'C07': (['ModelBuild', 'ModelBuild_Trace'], MB,
+            'TLC checks C07_NumeraireValueZero and C07_RefusedWithoutExternal over all two-currency blueprints; rebuilt models use '
+            'non-unit time-varying exchange rates and are checked exactly: credit = x*XR_src/XR_tgt, numeraire value of the FX '
+            'position zero, numeraire flat for paired flows, refusal without an external sector.',
+            'DESIGN.md section 6 C07'),
     'C12': (['Equation', 'Equation_Trace'],
             'TLA+ spec Equation.tla model-checked exhaustively by TLC; every TLC-generated behaviour replayed on the real '
             'Equation/Term/create_equation_from_terms; recorded executions validated by TLC against Equation_Trace.tla',
@@ -18,6 +41,27 @@ CHECKS = {
             'instance are enumerated by TLC, the invariants C12_* hold in every state, and every behaviour is executed on the '
             'real classes with the rendered text evaluated on two integer valuations; TLC judges each observed trace.',
             'DESIGN.md section 6 C12'),
+    'C13': (['Tokens', 'Tokens_Trace'],
+            'TLA+ spec Tokens.tla (token-level grammar, simultaneous substitution) model-checked by TLC; TLC-generated '
+            '(expression, map) behaviours rendered in three spacings and passed to the real replace_token / '
+            'replace_token_from_lookup / list_tokens; results re-tokenised and validated by TLC against Tokens_Trace.tla',
+            'All expressions of the bounded grammar and all partial maps (swaps, chains, merges) are enumerated by TLC with the '
+            'C13_* invariants; every behaviour is executed on the real functions and judged token by token and by value.',
+            'DESIGN.md section 6 C13'),
+    'C16': (['Results', 'Results_Trace'],
+            'TLA+ spec Results.tla (store, handed-out lists, cutoff, suppression, variable list) model-checked by TLC; all call '
+            'histories replayed on a real Model / EquationSolver / BaseSolver with deep snapshots after every call; traces '
+            'validated by TLC against Results_Trace.tla',
+            'All histories (<=4 quick, <=5 thorough) of Get / MutateHeld / SetSuppress / SetCutoff / RenderTable / BaseCsv are '
+            'enumerated by TLC with the action property C16_ReadsArePure and invariants; each is executed on the real objects.',
+            'DESIGN.md section 6 C16'),
+    'C19': (['Table', 'Table_Trace'],
+            'TLA+ spec Table.tla (names as code-point sequences, header order, row count) model-checked by TLC; TLC-generated '
+            'holders replayed on a real TimeSeriesHolder with seeded values and formats, solved models and solver blocks '
+            'included; tables parsed back and validated by TLC against Table_Trace.tla',
+            'All name sets / ragged lengths of the bounded instance enumerated by TLC with C19_Header / C19_RowCount; every '
+            'behaviour rendered by the real code, header/rows/cells judged by TLC on the observed table.',
+            'DESIGN.md section 6 C19'),
 }
 
 PENDING = {}
